@@ -14,30 +14,29 @@ func IsArray(expr Sexp) bool {
 }
 
 func IsList(expr Sexp) bool {
-	if expr == SexpNull {
-		return true
+	// a loop: the length of a list must not be the depth of the Go stack
+	for expr != SexpNull {
+		list, isPair := expr.(*SexpPair)
+		if !isPair {
+			return false
+		}
+		expr = list.Tail
 	}
-	switch list := expr.(type) {
-	case *SexpPair:
-		return IsList(list.Tail)
-	}
-	return false
+	return true
 }
 
 func IsAssignmentList(expr Sexp, pos int) (bool, int) {
-	if expr == SexpNull {
-		return false, -1
-	}
-	switch list := expr.(type) {
-	case *SexpPair:
-		sym, isSym := list.Head.(*SexpSymbol)
-		if !isSym {
-			return IsAssignmentList(list.Tail, pos+1)
+	for expr != SexpNull {
+		list, isPair := expr.(*SexpPair)
+		if !isPair {
+			break
 		}
-		if sym.name == "=" || sym.name == ":=" {
+		sym, isSym := list.Head.(*SexpSymbol)
+		if isSym && (sym.name == "=" || sym.name == ":=") {
 			return true, pos
 		}
-		return IsAssignmentList(list.Tail, pos+1)
+		expr = list.Tail
+		pos++
 	}
 	return false, -1
 }
